@@ -156,6 +156,22 @@ ADD2 = {
     "C20": ("; the universal-variable and Battin Lambert solvers are the cited algorithms definition by definition, guards included (Vallado Alg. 58 / 59, Battin), and Battin's continued-fraction coefficient tables follow their closed forms (R6, R7)", "; reference-definition agreement (rational-function normal forms under dominating conditions); constant folding of literal tables"),
 }
 
+# rules added after the seventh seed round / fourth neutral round (DESIGN 5.5)
+ADD3 = {
+    "C01": ("; the datetime -> Julian date conversion behind event times never consults the host's time zone (R13, shared with C05.R10)", ""),
+    "C02": ("; the pointing state reported back by a task-execution job is built in the iteration that collected it, sensor by sensor (R13, shared with C08.R4)", ""),
+    "C03": ("; the batch is flattened and restored in C order only (R1)", ""),
+    "C04": ("; Earth-orientation values are the table record of the UTC day - never combined across days, which would smear the leap-second jump (R14)", "; provenance of the table lookup through builder, getter and loader"),
+    "C05": ("; no time conversion calls a host-dependent function - astimezone on naive datetimes, fromtimestamp, mktime, now (R10)", "; forbidden-call scan with an embedded positive example"),
+    "C07": ("; the metric index tables describe the metric matrix's column layout: positions are taken from the very sequence that is stored and iterated (R5)", ""),
+    "C10": ("; no validator of a configuration class derives a propagation parameter (physics step, model, degree / order, perturbation switches) from another setting (R9)", "; field-write provenance inside the pydantic configuration classes"),
+    "C11": ("; host-independent time conversions (R11, shared with C05.R10)", ""),
+    "C12": ("; coe2eci, eci2eqe, eqe2eci and the orbit vector utilities agree with the cited constructions definition by definition, quadrant-fixing components included (R7); singularityCheck path-wise (R1)", "; reference-definition agreement"),
+    "C13": ("; the iteration domain of the geopotential accumulation(s) - read off loop bounds and guards as comparison-only predicates - equals 2 <= n <= degree, 0 <= m <= min(n, order), each pair once, on every weak ordering of (n, m, degree, order, 0, 1, 2) (R3)", "; iteration-domain analysis by exhaustive weak orderings"),
+    "C16": ("; no method on the measurement-update path re-orders the observation list it is handed (R5)", ""),
+    "C19": ("; a failed read of the database is never reported as an empty result: no path from an exception handler of getData to a return without re-raising or a completed read (R5)", "; must-pass analysis over exception handlers"),
+}
+
 NA_PENDING = "check not built yet in this session (design in DESIGN.md section 4); will be claimed once its rule module exists"
 
 
@@ -175,9 +191,9 @@ def main():
                     evidence_file=f"/verif/evidence/{pid}.json",
                     replay_cmd_template=f"./check {pid} --replay {{path}}",
                     engine="rsa",
-                    level_claimed=dict(category="other", text=d["text"] + (" Added later" + ADD[pid][0] + "." if pid in ADD else "") + (" Added in the continuation" + ADD2[pid][0] + "." if pid in ADD2 else ""), design_ref=d["ref"]),
+                    level_claimed=dict(category="other", text=d["text"] + (" Added later" + ADD[pid][0] + "." if pid in ADD else "") + (" Added in the continuation" + ADD2[pid][0] + "." if pid in ADD2 else "") + (" Added after the seventh seed round" + ADD3[pid][0] + "." if pid in ADD3 else ""), design_ref=d["ref"]),
                     level_note=COMMON_NOTE + (" " + d["note"] if d.get("note") else ""),
-                    technique=d["technique"] + (ADD[pid][1] if pid in ADD else "") + (ADD2[pid][1] if pid in ADD2 else ""),
+                    technique=d["technique"] + (ADD[pid][1] if pid in ADD else "") + (ADD2[pid][1] if pid in ADD2 else "") + (ADD3[pid][1] if pid in ADD3 else ""),
                 )
             )
         else:
